@@ -43,9 +43,9 @@ def legacy(tier):
         for om in ([0, 1] if q else [0, 1, 2]):
             nops = 2 if q else 3
             o.append(E2('history/%s/%s' % (TYPES[ct].replace(' ', '-'), MODES[om]), H,
-                        defines=['-DMODE=1', '-DCOLTYPE=%d' % ct, '-DOPENMODE=%d' % om, '-DN=9', '-DBATCH=3', '-DNOPS=%d' % nops], all_lib=True, timeout=1100 if q else 3000,
+                        defines=['-DMODE=1', '-DCOLTYPE=%d' % ct, '-DOPENMODE=%d' % om, '-DN=9', '-DBATCH=3', '-DNOPS=%d' % nops, '-DH_KMAX=10'], all_lib=True, timeout=1100 if q else 3000,
                         stubs=STUBS, max_paths=300000, fork_max=16,
-                        bounds='column %s (concrete content), 9 rows in 3 pages; every history of %d operations from {read_batch(k), skip(k), has_next/remaining, re-create}, each k in 0..10 symbolic (independent per operation), followed by a full read; open via %s' % (TYPES[ct], nops, MODES[om]) + OUTSIDE))
+                        bounds='column %s (concrete content), 9 rows in 3 pages; every history of %d operations from {read_batch(k), skip(k), has_next/remaining, re-create}, each k in 0..10 (every value, independent per operation, one per path), followed by a full read; open via %s' % (TYPES[ct], nops, MODES[om]) + OUTSIDE))
     for ct in ([0, 2] if q else [0, 1, 2, 3, 4]):
         for om in ([0, 2] if q else [0, 1, 2]):
             o.append(E2('batch/%s/%s' % (TYPES[ct].replace(' ', '-'), MODES[om]), H,
@@ -78,37 +78,40 @@ def hist(ct, opt, n, pages, rgs, nops, om=4, codec='unc', kmax=None, ops5=False,
 
 def batch(ct, opt, yt, yopt, n, pages, rgs, om=4, codec='unc', timeout=1500):
     """batch reader over 3 columns: every batch size x every projection"""
-    d = ['-DMODE=2', '-DH_CT=%d' % ct, '-DH_OPT=%d' % opt, '-DH_NCOLS=3', '-DH_YT=%d' % yt, '-DH_YOPT=%d' % yopt, '-DH_PROJ=1', '-DOPENMODE=%d' % om, '-DCODEC=' + CODECS[codec]] + layout_defs(n, pages, rgs)
+    d = ['-DMODE=2', '-DH_CT=%d' % ct, '-DH_OPT=%d' % opt, '-DH_NCOLS=3', '-DH_YT=%d' % yt, '-DH_YOPT=%d' % yopt, '-DH_PROJ=1', '-DH_BSCHOICE', '-DOPENMODE=%d' % om, '-DCODEC=' + CODECS[codec]] + layout_defs(n, pages, rgs)
     nm = 'batch3/%s+%s/%s/%s/%s' % (tname(ct, opt), tname(yt, yopt), layout_tag(n, pages, rgs), codec, {0: 'buffer', 1: 'stdio', 2: 'mmap', 4: 'anyio'}[om])
     return E2(nm, H, defines=d, all_lib=True, timeout=timeout, stubs=STUBS, max_paths=400000, fork_max=32,
-              bounds='3 columns (x %s %s, id INT32 REQUIRED, y %s %s; concrete content), %s, %s; every batch_size 1..%d (symbolic) x 79 projections (all columns; every index list of length 1..3 over the 3 columns incl. repeated and reordered indices; the same lists by name); every batch: same row count in all columns, values, null bitmaps with one polarity across columns; open via %s'
+              bounds='3 columns (x %s %s, id INT32 REQUIRED, y %s %s; concrete content), %s, %s; every batch_size 1..%d (one per path) x 79 projections (all columns; every index list of length 1..3 over the 3 columns incl. repeated and reordered indices; the same lists by name); every batch: same row count in all columns, values, null bitmaps with one polarity across columns; open via %s'
                      % (TN[ct], 'OPTIONAL' if opt else 'REQUIRED', TN[yt], 'OPTIONAL' if yopt else 'REQUIRED', layout_txt(n, pages, rgs), codec, n + 1, MODES[om]) + OUTSIDE)
 
 
 def deep():
     o = []
     ALL = [(ct, opt) for ct in range(7) for opt in (1, 0)]
-    # ---- histories
-    # every type x OPTIONAL/REQUIRED, 2 operations, uneven pages, each I/O mode (one per path)
+    # ---- histories (k: every value, one per path)
+    # every type x OPTIONAL/REQUIRED: 3 operations of the 4 kinds, uneven pages, each I/O mode
     for ct, opt in ALL:
-        o.append(hist(ct, opt, 9, [1, 2, 3, 2, 1], None, 2))
+        o.append(hist(ct, opt, 9, [1, 2, 3, 2, 1], None, 3, kmax=10))
     # 3 operations incl. reads without level buffers, several row groups (one of them a single row), every type nullable
     for ct in range(7):
         o.append(hist(ct, 1, 10, [2, 3], [5, 1, 4], 3, om=(0, 1, 2)[ct % 3], kmax=6, ops5=True))
-    # required columns (zero-copy eligible pages under mmap/buffer): 3 operations, symbolic k
-    for ct in (1, 2, 4, 6, 0, 5):
-        o.append(hist(ct, 0, 9, [4, 1, 4], None, 3, om=2 if ct in (1, 2, 4) else 0))
-    # long histories: 4 operations of all kinds / 5 read-skip operations, concrete k per path
-    for ct, opt, om in ((1, 1, 0), (5, 1, 1), (0, 1, 2), (2, 0, 2), (6, 1, 0), (4, 1, 1)):
+    # long histories: 4 operations of all kinds / 5 and 6 read-skip operations
+    for ct, opt, om in ((1, 1, 0), (5, 1, 1), (0, 1, 2), (2, 0, 2), (6, 1, 0), (4, 1, 1), (3, 0, 0), (5, 0, 2)):
         o.append(hist(ct, opt, 7, [2, 1, 3, 1], None, 4, om=om, kmax=4))
-    for ct, opt, om in ((1, 1, 2), (5, 1, 0), (0, 1, 1), (3, 0, 2)):
+    for ct, opt, om in ((1, 1, 2), (5, 1, 0), (0, 1, 1), (3, 0, 2), (6, 0, 1), (2, 1, 0)):
         o.append(hist(ct, opt, 7, [1, 3, 2, 1], None, 5, om=om, kmax=3, rw_only=True, timeout=2400))
-    # compressed pages (decompressed page buffers instead of views)
-    for ct, opt, codec in ((1, 1, 'snappy'), (5, 1, 'lz4'), (2, 0, 'snappy'), (0, 1, 'lz4'), (6, 0, 'snappy'), (4, 1, 'lz4')):
-        o.append(hist(ct, opt, 9, [1, 2, 3, 2, 1], [6, 3], 2, codec=codec))
+    o.append(hist(1, 1, 6, [1, 2, 1, 2], None, 6, om=2, kmax=2, rw_only=True, timeout=2400))
+    o.append(hist(5, 1, 6, [2, 1, 2, 1], None, 6, om=1, kmax=2, rw_only=True, timeout=2400))
+    # compressed pages (decompressed page buffers instead of views), two row groups
+    for ct, opt, codec, om in ((1, 1, 'snappy', 0), (5, 1, 'lz4', 1), (2, 0, 'snappy', 2), (0, 1, 'lz4', 0), (6, 0, 'snappy', 1), (4, 1, 'lz4', 2)):
+        o.append(hist(ct, opt, 9, [1, 2, 3, 2, 1], [6, 3], 3, om=om, codec=codec, kmax=7))
     # an empty row group in the middle of the file
-    o.append(hist(1, 1, 8, 3, [4, 0, 4], 2))
-    o.append(hist(5, 0, 8, 3, [4, 0, 4], 2))
+    o.append(hist(1, 1, 8, 3, [4, 0, 4], 3, kmax=5))
+    o.append(hist(5, 0, 8, 3, [4, 0, 4], 3, kmax=5))
+    # more rows per page (bit-packed level groups of 8, RLE runs): 16 rows in pages of 5,1,7,3
+    for ct, opt, om in ((1, 1, 0), (5, 1, 2), (0, 1, 1), (2, 0, 2)):
+        o.append(hist(ct, opt, 16, [5, 1, 7, 3], None, 2, om=om, kmax=17, ops5=True))
+    o.append(hist(4, 1, 16, [5, 1, 7, 3], None, 3, om=1, kmax=17, timeout=2400))
     # ---- batch reader: 3 columns, all projections, all batch sizes
     for i, (ct, opt) in enumerate(ALL):
         yt, yopt = [(5, 1), (4, 0), (0, 1), (6, 1), (2, 0), (1, 1), (3, 1)][i % 7]
@@ -120,10 +123,53 @@ def deep():
         o.append(batch(ct, opt, yt, yopt, 9, 3, [6, 3], codec=codec))
     o.append(batch(1, 1, 5, 1, 8, 3, [4, 0, 4]))
     o.append(batch(2, 0, 4, 0, 12, [5, 1, 1, 5], None))
+    o.append(batch(0, 1, 6, 1, 17, [8, 9], None, om=2))
+    o.append(batch(5, 1, 1, 0, 17, [9, 8], [9, 8], om=1))
+    return o
+
+
+HB = 'harness/e2/c02_big.c'
+BIGOUT = '; outside: symbolic content, other types, compressed pages, more rows than stated'
+
+
+def big_skip(ct, opt, om, rows=2300, batch=250, ps=2000, rgs=None, timeout=1500):
+    """carquet_column_skip works in internal chunks of 1024 values: skip(n) around the chunk multiples on a file of a few thousand rows"""
+    d = ['-DHB_MODE=1', '-DHB_CT=%d' % ct, '-DHB_OPT=%d' % opt, '-DOPENMODE=%d' % om, '-DHB_ROWS=%d' % rows, '-DHB_BATCH=%d' % batch, '-DHB_PS=%d' % ps]
+    if rgs: d.append('-DHB_RGS=' + ','.join(map(str, rgs)))
+    if not opt: d.append('-DHB_SYMN')          # a symbolic n reaches loop bounds over the definition levels of a nullable column (one fork per level): REQUIRED columns only
+    nm = 'large-skip/%s/r%d-b%d-ps%d%s/%s' % (tname(ct, opt), rows, batch, ps, ('-rg' + '.'.join(map(str, rgs))) if rgs else '', {0: 'buffer', 1: 'stdio', 2: 'mmap', 4: 'anyio'}[om])
+    return E2(nm, HB, defines=d, all_lib=True, timeout=timeout, stubs=STUBS, max_paths=100000, fork_max=8, max_steps=40_000_000,
+              bounds='column %s %s, %d rows of CONCRETE content (%s), uncompressed, written in batches of %d rows with page_size %d (several pages per chunk), %s; column reader of a symbolically chosen row group: optional read of 3 / 1021 rows, then skip(n) for n in {0, 1, 2, 1022..1026, 2046..2050, rows-1, rows, rows+5}%s, read of 9 rows, optionally a second skip(1024|1025) + read, then the rest: return values, remaining()/has_next, values and null positions after each skip; open via %s'
+                     % (TN[ct], 'OPTIONAL' if opt else 'REQUIRED', rows, 'null pattern: mixed, 900 present, 100 null, alternating' if opt else 'no nulls', batch, ps,
+                        ('row groups of %s rows' % '+'.join(map(str, rgs))) if rgs else 'one row group',
+                        '' if opt else ' and one SYMBOLIC n in 0..rows+10 (followed by the engine through representative values, see notes)', MODES[om]) + BIGOUT)
+
+
+def big_batch(ct, opt, om, rows=2300, batch=250, ps=2000, rgs=None, bslist=None, ncols=2, timeout=1500, prefix='large-batch'):
+    d = ['-DHB_MODE=2', '-DHB_CT=%d' % ct, '-DHB_OPT=%d' % opt, '-DOPENMODE=%d' % om, '-DHB_ROWS=%d' % rows, '-DHB_BATCH=%d' % batch, '-DHB_PS=%d' % ps, '-DHB_NCOLS=%d' % ncols]
+    if rgs: d.append('-DHB_RGS=' + ','.join(map(str, rgs)))
+    if bslist: d.append('-DHB_BSLIST=' + ','.join(map(str, bslist)))
+    nm = '%s/%s/r%d-b%d-ps%d%s/%s' % (prefix, tname(ct, opt), rows, batch, ps, ('-rg' + '.'.join(map(str, rgs))) if rgs else '', {0: 'buffer', 1: 'stdio', 2: 'mmap', 3: 'three-modes', 4: 'anyio'}[om])
+    return E2(nm, HB, defines=d, all_lib=True, timeout=timeout, stubs=STUBS, max_paths=100000, fork_max=8, max_steps=80_000_000,
+              bounds='%d column(s): x %s %s%s, %d rows of CONCRETE content, uncompressed, batches of %d rows, page_size %d, %s; batch reader with batch_size in %s: row counts per column, values, null bitmaps, concatenation == file; open via %s'
+                     % (ncols, TN[ct], 'OPTIONAL' if opt else 'REQUIRED', ' + id INT32 REQUIRED' if ncols > 1 else '', rows, batch, ps, ('row groups of %s rows' % '+'.join(map(str, rgs))) if rgs else 'one row group',
+                        ('{%s} (0 = config NULL i.e. the default 65536, -1 = config_init default)' % ','.join(map(str, bslist))) if bslist else '{config NULL (default 65536), config_init default, 7, 8, 64, 1000, 1023, 1024, 1025, rows-1, rows, rows+1}',
+                        {0: 'buffer', 1: 'stdio', 2: 'mmap', 3: 'buffer, stdio and mmap in one path (compared byte-for-byte)', 4: MODES[4]}[om]) + BIGOUT)
+
+
+def big(tier):
+    o = [big_skip(1, 0, 0), big_skip(1, 1, 1)]
+    if tier == 'quick':
+        return o
+    o += [big_skip(2, 1, 0), big_skip(2, 0, 2), big_skip(1, 1, 4, rows=2600, batch=300, ps=1, rgs=[1500, 1100]), big_skip(1, 0, 1, rows=2100, batch=100, ps=4096),
+          big_skip(2, 1, 1, rows=2500, batch=512, ps=1)]
+    o += [big_batch(1, 1, 4), big_batch(2, 0, 4, rows=2100, batch=300, ps=1, rgs=[1030, 1070]), big_batch(2, 1, 4, rows=2600, batch=1024, ps=1),
+          # the batch reader's default batch size (65536 rows): a chunk with more rows than one default batch
+          big_batch(1, 0, 4, rows=65600, batch=8200, ps=1, bslist=[0, -1, 65535, 65536, 65537], ncols=1, timeout=2400, prefix='default-batch-size')]
     return o
 
 
 def obligations(tier):
     if tier == 'quick':
-        return legacy('thorough')
-    return legacy('thorough') + deep()
+        return legacy('thorough') + big('quick')
+    return legacy('thorough') + deep() + big('thorough')
